@@ -96,6 +96,12 @@ CHECKS = {
          '5 760 (quick) / 120 000 (thorough) executed (program, binding table) pairs with pipes of length 1..4 (alternatives raising each of nine fall-through and seven propagating exception classes, attribute/item fallback objects, undefined names), prefix nestings (not:, exists:, string:, python:, structure:, import:) at define / condition / repeat / switch / case / content / replace / omit-tag / attributes / ${} sites; ~6 500 observed fall-throughs, ~1 200 propagations and ~16 000 watched dead expressions per quick run; 2 400 / 48 000 generated Python expressions (comprehensions, lambdas, f-strings, shadowed builtins) compared with eval.',
          'Trusted: reference model vlib/tmodel.py (TALES part: 150 lines); the order of the expressions of one start tag is compared as a multiset, and when one of them fails the evaluation log is not compared (DESIGN §2.3).',
          'DESIGN.md §3 C04'),
+ 'C19': ('differential+model-reach',
+         'runtime differential: strict vs non-strict renderings (output and evaluation log) of valid generated programs; planted invalid expressions: strict construction must raise at the planted location, non-strict rendering must raise the same error iff the reference model reaches the planted slot',
+         'exploration',
+         '4 800 (quick) / 86 000 (thorough) valid (program, table) pairs rendered in both modes; 1 550 / 28 000 programs with one invalid expression planted at a random slot in one of five forms (alone, first or later pipe alternative, under not:, string: part, ${} part); each planted program rendered non-strict under three tables: ~2 000 renderings where the model reaches the slot (error text, token and offset compared with the strict error) and ~2 500 where it is dead (false condition, empty repeat, cancelled case, replace, omitted tag, earlier failure, earlier alternative won) whose output and log must equal the model\'s.',
+         'Trusted: reference model for reachability; when both sides raise at the planted slot the real log need only be a prefix of the model\'s (parts of the same argument written before the invalid text).',
+         'DESIGN.md §3 C19'),
 }
 NOT_YET = {}
 
